@@ -1,9 +1,9 @@
 SPECIFICATION Spec
 CONSTANTS
-  Breaks <- BreaksQ
-  Degs <- DegsQ
-  MaxNpts = 6
-  ExtraNodes <- ExtraQ
+  Breaks <- BreaksT
+  Degs <- DegsT
+  MaxNpts = 7
+  ExtraNodes <- ExtraT
 INVARIANT WellFormedUniverse
 INVARIANT PartitionOfUnity
 INVARIANT NonNegative
